@@ -27,7 +27,7 @@ func init() {
 			{Name: "playoutdelay-2^24", N: fw.Const(256, 256), Run: c17Playout, Exhaustive: true},
 			{Name: "playoutdelay-out-of-range", N: fw.Const(1, 1), Run: c17PlayoutOOR, Exhaustive: true},
 			{Name: "abssendtime-2^24", N: fw.Const(256, 256), Run: c17AST, Exhaustive: true},
-			{Name: "abscapturetime", N: fw.Const(1<<10, 1<<14), Run: c17ACT},
+			{Name: "abscapturetime", N: fw.Const(1<<11, 1<<14), Run: c17ACT},
 		},
 	})
 }
